@@ -261,6 +261,15 @@ def run_case(pack, role, lvl, payloads, mode="each"):
             v("time-bound", cls, "update() took %d ms of virtual time (bound %d ms)" % (dt // MS, time_bound_ns(n, len(idx_list)) // MS))
         sent = [p for p in w.airlog[mark:] if p.src is r and not p.is_ack]
         queued = len(n.queue) - q0
+        # "forward garbage": a transmitted frame that carries the complete header of a received frame IS that frame being
+        # passed on (replies, acknowledgements and re-typed frames have another header) - it must be the received bytes
+        for p in sent:
+            for i in idx_list:
+                if len(payloads[i]) >= 8 and p.payload[:8] == payloads[i][:8] and p.payload != payloads[i]:
+                    v("forwarded-altered", classes[i][1], "received %s, passed on as %s (to %s)%s" % (
+                        payloads[i].hex(), p.payload.hex(), p.addr.hex(),
+                        "; earlier frames: " + " + ".join(x.hex() for x in payloads[:idx_list[0]]) if idx_list[0] else ""), with_level=False)
+                    break
         if all(classes[i][0] != "valid" for i in idx_list):
             kind = "short" if all(classes[i][0] == "short" for i in idx_list) else "invalid"
 
